@@ -19,7 +19,8 @@ from harness.props import c05
 
 def snapshot(arch):
     nx = rules.nx_of(arch)
-    return (tuple(arch.modules), tuple(sorted((a, b, rules.is_hierarchy_pair(a, b)) for a, b in nx.edges())))
+    # the edge attributes as they are (whatever they are called): only ever compared between two runs of the same code
+    return (tuple(arch.modules), tuple(sorted((a, b, rules.is_hierarchy_pair(a, b), repr(sorted(dt.items()))) for a, b, dt in nx.edges(data=True))))
 
 
 def _history_job(args):
@@ -382,8 +383,22 @@ def scan_determinism(ctx, n):
                                   "regex exclusion patterns are not applied one by one (each on its own) to the paths", {"kind": "scan"})
                     break
             ctx.stat("regex_exclusion_orders", len(outs))
+            # a module file next to a package directory of the same name (t.py beside t/), importing a module of that package
+            # which another module imports too: whichever the walk meets first, the architecture is the same
+            twin_dirs = [x for x in inner_dirs if any(y.startswith(x + ".") and y in leaves for y in nodes) and any(not y.startswith(x + ".") for y in leaves)]
+            if twin_dirs and rng.random() < 0.5:
+                t = rng.choice(twin_dirs)
+                direct = [y for y in leaves if y.startswith(t + ".") and y.count(".") == t.count(".") + 1]
+                child = rng.choice(direct or [y for y in leaves if y.startswith(t + ".")])     # preferably its own direct child
+                other = rng.choice([y for y in leaves if not y.startswith(t + ".")])
+                d.joinpath(*t.split(".")).with_suffix(".py").write_text(f"import {child}\n")
+                with open(d.joinpath(*other.split(".")).with_suffix(".py"), "a") as fh:
+                    fh.write(f"import {child}\n")
+                edges = edges + [(t, child), (other, child)]
+                ctx.stat("scan_trees_with_a_file_and_a_directory_of_one_name")
+                base = snapshot(get_evaluable_architecture(rp, rp, exclusions=excl))
             orig = pathlib.Path.iterdir
-            for s in range(3):
+            for s in range(4):
                 srng = random.Random(s)
 
                 def shuffled(self, _orig=orig, _r=srng):
